@@ -728,6 +728,17 @@ pub fn run(args: &Args) {
 				let lat2 = lat_of(z, (ty + 1.0 - k * 1e-6).min(m)).clamp(-90.0, lat);
 				geo(&mut cx, z, lon, lat2, lon2, lat);
 			}
+			// degenerate segments lying exactly on a tile border and spanning several tiles on the other axis
+			{
+				let span = (rng.range(1, 5) as f64).min(m - 1.0).max(0.0);
+				let (bx, by) = (tx.min(m - 1.0), ty.min(m - 1.0));
+				let lon_b = lon_of(z, bx).clamp(-180.0, 180.0);
+				let (lat_n, lat_s) = (lat_of(z, by).clamp(-90.0, 90.0), lat_of(z, (by + span + 0.5).min(m)).clamp(-90.0, 90.0));
+				geo(&mut cx, z, lon_b, lat_s.min(lat_n), lon_b, lat_n); // vertical segment on a column border
+				let lat_b = lat_of(z, by).clamp(-90.0, 90.0);
+				let (lon_w, lon_e) = (lon_of(z, bx).clamp(-180.0, 180.0), lon_of(z, (bx + span + 0.5).min(m)).clamp(-180.0, 180.0));
+				geo(&mut cx, z, lon_w, lat_b, lon_e.max(lon_w), lat_b); // horizontal segment on a row border
+			}
 			// random valid boxes
 			let (a, b) = (rng.below(360_000_000) as f64 / 1e6 - 180.0, rng.below(360_000_000) as f64 / 1e6 - 180.0);
 			let (c, d) = (rng.below(180_000_000) as f64 / 1e6 - 90.0, rng.below(180_000_000) as f64 / 1e6 - 90.0);
